@@ -997,6 +997,46 @@ func ruleC01NoFollow(c *Checker) {
 		safe = append(safe, okE...)
 		nrem++
 	}
+	// the remover written out in Unpack itself: os.Lstat of the entry path, and behind it the three ways on —
+	// nothing there, not a link, or a link that os.Remove took away
+	inlineRemove := map[ssa.Instruction]bool{}
+	if nrem == 0 {
+		for _, ci := range callsTo(U, func(o *types.Func) bool { return isFunc(o, "os", "Lstat") }) {
+			lst, ok := ci.(*ssa.Call)
+			if !ok || !pathOfInfo(p, lst.Call.Args[0], u) {
+				continue
+			}
+			fi, ev := extractOf(lst, 0), extractOf(lst, 1)
+			if fi == nil || ev == nil {
+				continue
+			}
+			t1, _ := condEdges(U, func(v ssa.Value) bool {
+				cl, ok := v.(*ssa.Call)
+				return ok && isFunc(calleeObj(cl), "os", "IsNotExist") && cl.Call.Args[0] == ev
+			})
+			symT, symF := symlinkEdges(U, fi)
+			if len(symF) == 0 {
+				continue
+			}
+			var rmOK []Edge
+			for _, c2 := range callsTo(U, func(o *types.Func) bool { return isFunc(o, "os", "Remove") }) {
+				rm, ok := c2.(*ssa.Call)
+				if !ok || !pathOfInfo(p, rm.Call.Args[0], u) || !guarded(rm.Block(), symT) {
+					continue
+				}
+				okE, _ := okEdgesOfCall(rm)
+				rmOK = append(rmOK, okE...)
+				inlineRemove[rm] = true
+			}
+			if len(rmOK) == 0 {
+				continue
+			}
+			safe = append(safe, t1...)
+			safe = append(safe, symF...)
+			safe = append(safe, rmOK...)
+			nrem++
+		}
+	}
 	c.check(nrem > 0, R, uname, "link remover", p.Pos(U.Pos()), fmt.Sprintf("%d link-remover call(s) on the entry path", nrem),
 		"no call to a link-remover helper on the entry path found in Unpack: a later file or directory entry is written through an earlier symlink of the same name")
 	// the destination itself is not an entry the slug created: where the entry path equals dst
@@ -1281,12 +1321,29 @@ func ruleC01Replace(c *Checker) {
 	}
 	p := c.P
 	n := 0
+	var inlineRm []*ssa.Call
 	for _, s := range fsSinkSites(u.ReachL) {
 		if s.Sink.Class != "remove" && s.Sink.Class != "rename" {
 			continue
 		}
 		n++
 		ok := p.isLinkRemover(s.Fn)
+		if !ok && s.Fn == u.Unpack {
+			// the remover written out in Unpack: os.Remove of the entry path behind the is-a-link edge of its own Lstat
+			if rm, isCall := s.Call.(*ssa.Call); isCall && isFunc(calleeObj(rm), "os", "Remove") && pathOfInfo(p, rm.Call.Args[0], u) {
+				for _, ci := range callsTo(u.Unpack, func(o *types.Func) bool { return isFunc(o, "os", "Lstat") }) {
+					if lst, isL := ci.(*ssa.Call); isL && pathOfInfo(p, lst.Call.Args[0], u) {
+						if fi := extractOf(lst, 0); fi != nil {
+							symT, _ := symlinkEdges(u.Unpack, fi)
+							if len(symT) > 0 && guarded(rm.Block(), symT) {
+								ok = true
+								inlineRm = append(inlineRm, rm)
+							}
+						}
+					}
+				}
+			}
+		}
 		c.check(ok, R, p.FuncName(s.Fn), shortCallee(s.Name)+" of an entry path", p.Pos(s.Call.Pos()), "inside the link remover (removes only symlinks)", "an entry path is removed outside the link-remover helper: files or directories materialised earlier (and possibly recorded for the deferred restore) can be replaced by a later entry")
 	}
 	// the helper is applied only to file/directory entries, never before creating a link
@@ -1296,7 +1353,13 @@ func ruleC01Replace(c *Checker) {
 			continue
 		}
 		g := cl.Common().StaticCallee()
-		if g == nil || !p.InModule(g) || !p.isLinkRemover(g) {
+		isInline := false
+		for _, rm := range inlineRm {
+			if rm == cl {
+				isInline = true
+			}
+		}
+		if !isInline && (g == nil || !p.InModule(g) || !p.isLinkRemover(g)) {
 			continue
 		}
 		n++
